@@ -308,10 +308,18 @@ impl TimeZone {
         debug_assert_eq!(after_possible.len(), 1);
         // 12. Let offsetBefore be GetOffsetNanosecondsFor(timeZone,
         //     beforePossible[0]).
-        let offset_before = self.get_offset_nanos_for(before_possible[0].0, provider)?;
+        let no_candidate = || {
+            TemporalError::range()
+                .with_message("Could not resolve the date-time around a time zone transition.")
+        };
+        let offset_before = self.get_offset_nanos_for(
+            before_possible.first().ok_or_else(no_candidate)?.0,
+            provider,
+        )?;
         // 13. Let offsetAfter be GetOffsetNanosecondsFor(timeZone,
         //     afterPossible[0]).
-        let offset_after = self.get_offset_nanos_for(after_possible[0].0, provider)?;
+        let offset_after = self
+            .get_offset_nanos_for(after_possible.first().ok_or_else(no_candidate)?.0, provider)?;
         // 14. Let nanoseconds be offsetAfter - offsetBefore.
         let nanoseconds = offset_after - offset_before;
         // 15. Assert: abs(nanoseconds) ≤ nsPerDay.
@@ -337,7 +345,7 @@ impl TimeZone {
             let possible = self.get_possible_epoch_ns_for(earlier, provider)?;
             // f. Assert: possibleEpochNs is not empty.
             // g. Return possibleEpochNs[0].
-            return Ok(possible[0]);
+            return possible.first().copied().ok_or_else(no_candidate);
         }
         // 17. Assert: disambiguation is compatible or later.
         // 18. Let timeDuration be TimeDurationFromComponents(0, 0, 0, 0, 0, nanoseconds).
@@ -356,10 +364,9 @@ impl TimeZone {
         // 22. Set possibleEpochNs to ? GetPossibleEpochNanoseconds(timeZone, laterDateTime).
         let possible = self.get_possible_epoch_ns_for(later, provider)?;
         // 23. Set n to possibleEpochNs's length.
-        let n = possible.len();
         // 24. Assert: n ≠ 0.
         // 25. Return possibleEpochNs[n - 1].
-        Ok(possible[n - 1])
+        possible.last().copied().ok_or_else(no_candidate)
     }
 
     pub(crate) fn get_start_of_day(
